@@ -22,6 +22,7 @@ PROPS = {
         "note": PROOF_NOTE,
         "technique": "Lean 4 invariant proof by induction over label sequences + translated config functions + model/implementation correspondence",
         "monitors": ["C09"],
+        "extra": ["tables"],
         "corr": corr(["burst", "mixed", "timeouts"]),
         "extract_items": ["DEFAULT_MAILBOX_CAPACITY", "set_default_mailbox_capacity", "spawn_capacity", "spawn_with_mailbox_capacity"],
         "assumptions": COMMON_ASSUME + ["a granted-but-unpushed permit reserves a slot (the bound is on pushed + granted)"],
@@ -55,6 +56,7 @@ PROPS.update({
         "note": PROOF_NOTE + " Wall-clock behaviour of the blocking variants is outside the model (see C17).",
         "technique": "Lean 4 invariant proof over label sequences + translated is_retryable + correspondence with virtual-clock return instants",
         "monitors": ["C10"],
+        "extra": ["tables"],
         "corr": corr(["timeouts", "burst", "mixed"]),
         "extract_items": ["ErrorKind"],
         "assumptions": COMMON_ASSUME + ["tokio::time::timeout polls the inner future first and fires no earlier than its deadline"],
@@ -68,6 +70,30 @@ PROPS.update({
         "corr": corr(["timeouts", "burst", "mixed", "handles"]),
         "extract_items": [],
         "assumptions": COMMON_ASSUME + ["dead-letter operation labels are compared by family (tell/ask), DESIGN.md §7/C13"],
+    },
+})
+
+PROPS.update({
+    "C04": {
+        "level": "proof",
+        "text": "Kernel-checked for every run: the actor's hook events form a word of the lifecycle automaton (on_start once and first, handlers never overlapping, on_stop at most once and last, nothing after a panic but the join); on_stop(killed=true) only after a kill() was issued and exactly in the step that consumes the signal; on_stop ran iff the actor ended by stop/kill/unreferenced/on_run error. The same three predicates (C04.accepts, killedOnlyIfKill, stopIffCause) are evaluated on every real trace; causes land at every phase through the generators.",
+        "note": PROOF_NOTE,
+        "technique": "Lean 4 fold-invariant proofs (lifecycle automaton, kill fold, result summary) over label sequences + correspondence + Lean monitors on real traces",
+        "monitors": ["C04"],
+        "corr": corr(["mixed", "burst", "idle", "handles"]),
+        "extract_items": [],
+        "assumptions": COMMON_ASSUME,
+    },
+    "C05": {
+        "level": "proof",
+        "text": "Kernel-checked: (a) for every run the JoinHandle output equals the outcome computed from the hook events alone (variant, phase, killed, error source, actor log, panic as JoinError) - theorem on the very predicate C05.ok that is evaluated on real traces; (b) accessor laws for all values of ActorResult, proved about the functions translated from src/actor_result.rs on every run; the translation is differential-tested against the real accessors on all 18 shapes, with independent oracles.",
+        "note": PROOF_NOTE,
+        "technique": "Lean 4 invariant proof + theorems on translated accessor functions + exhaustive differential test of the translation",
+        "monitors": ["C05"],
+        "extra": ["tables"],
+        "corr": corr(["mixed", "idle", "burst"]),
+        "extract_items": ["FailurePhase", "ActorResult"],
+        "assumptions": COMMON_ASSUME,
     },
 })
 
